@@ -16,6 +16,9 @@ func init() { Registry["C10"] = checkC10 }
 func checkC10(c *Ctx) {
 	c.R.NotCover = append(c.R.NotCover, "the value of the SessionPresent flag across arbitrary connect histories (e.g. a live CleanSession=1 connection with the same id still in the store)", "granted-QoS survival beyond what the session records (the requested QoS, re-capped on restore)")
 	c.useRules(ruleP8, ruleP5, ruleP4, ruleP9, ruleT5)
+	c.useRules(ruleP8)
+	c.storeKeyNeverEmpty()
+	c.sessionConnectAndWill()
 	c.useRules(ruleP9)
 	c.sessionDeleteOnlyAtTeardown()
 	c.tokenIdentity()
